@@ -154,6 +154,43 @@ Theorem C03_no_fuel : forall (find : layout -> N -> option nat) (inv : layout ->
   (exists v, gm_write_slice find m M buf addr = Val v) /\ (exists v, gm_read_slice find m M buf addr = Val v).
 Proof. exact no_fuel_lemma. Qed.
 
+(* HISTORIES.  The flat machine (Proofs/C03.v, Part 4) has ONE partial function address -> byte as
+   its state and defines every operation on it directly (the run is found by counting byte by
+   byte; a write overwrites exactly the run; nothing else changes).  For every history of mixed
+   writes / reads / slices / objects / atomics / in-memory stream transfers on any well-formed
+   memory, the implementation model produces exactly the flat machine's observations, its final
+   memory reads as the flat machine's final state, and the regions keep their shape. *)
+Theorem C03_history_refines : forall m ops M, wf_layout_gen (shape M) -> Forall op_wf ops ->
+  map strip (snd (hist_C03 m M ops)) = snd (flat_hist (shape M) ops (rd M)) /\
+  (forall x, rd (fst (hist_C03 m M ops)) x = fst (flat_hist (shape M) ops (rd M)) x) /\
+  shape (fst (hist_C03 m M ops)) = shape M.
+Proof. exact history_refines_lemma. Qed.
+
+(* the implementation model satisfies the executable checker on every history *)
+Theorem C03_model_ok : forall c, wf_case03 c -> ok_C03 c (run_C03 c) = true.
+Proof. exact C03_model_ok_lemma. Qed.
+
+(* the checker's brute-force notions are the Prop-level ones: its run length is THE run, its
+   flat reading is rd, and "memory = src stored at a, everything else equal" is list equality
+   with what it computes *)
+Theorem C03_checker_reading : forall M a n, wf_layout_gen (shape M) -> a < W64 ->
+  is_run (shape M) a n (run (to_smem M) a n) /\
+  (forall x, s_get (to_smem M) x = rd M x) /\
+  (forall M' src, shape M' = shape M -> (forall x, rd M' x = fl_put (rd M) a src x) ->
+     to_smem M' = s_put (to_smem M) a src).
+Proof. exact checker_reading_lemma. Qed.
+
+Example C03_nonvacuous :
+  let M := [ {| rstart := W64 - 8; rbytes := [1;2;3;4;5;6;7;8] |};
+             {| rstart := 0; rbytes := repeat 9 16 |}; {| rstart := 16; rbytes := [0;0;0;0] |} ] in
+  wf_layout_gen (shape M) /\
+  (exists M', gm_write find_lin Debug M [21;22;23;24;25;26;27;28;29;30;31;32] (W64 - 4) = Val (M', inl 4) /\
+              rd M' 0 = Some 9 /\ rd M' (W64 - 1) = Some 24) /\
+  (exists M', gm_write find_lin Debug M [41;42;43;44;45;46;47;48] 14 = Val (M', inl 6) /\
+              rd M' 15 = Some 42 /\ rd M' 16 = Some 43 /\ rd M' 19 = Some 46 /\ rd M' 20 = None) /\
+  gm_write_slice find_lin Debug M [1;2;3] 18 = Val (upd_nth M 2 {| rstart := 16; rbytes := [0;0;1;2] |}, inr (EPartialBuffer 3 2)).
+Proof. exact C03_nonvacuous_lemma. Qed.
+
 Print Assumptions C03_write_refines_flat.
 Print Assumptions C03_write_frame.
 Print Assumptions C03_read_refines_flat.
@@ -167,3 +204,6 @@ Print Assumptions C03_atomic_load.
 Print Assumptions C03_read_volatile_from_refines_flat.
 Print Assumptions C03_write_volatile_to_refines_flat.
 Print Assumptions C03_no_fuel.
+Print Assumptions C03_history_refines.
+Print Assumptions C03_model_ok.
+Print Assumptions C03_checker_reading.
